@@ -1,7 +1,7 @@
 from harness.props import base
 from harness import preds
 LEVEL = 'proof'
-VFILES = ['Lines.v', 'Tree.v', 'RegexFacts.v', 'TokTiles.v', 'ParseKeeps.v', 'Model.v', 'Properties/C09.v', 'Properties/C01.v']
+VFILES = ['Lines.v', 'Tree.v', 'RegexFacts.v', 'TokTiles.v', 'TokShape.v', 'ParseKeeps.v', 'Model.v', 'Properties/C09.v', 'Properties/C01.v']
 TECHNIQUE = 'Coq proof of the round trip on the whole Gallina pipeline (lines -> tokenizer -> engine with error recovery -> tree) for all texts + regenerated tables + tok/parse/lines correspondence + predicate search'
 EXPLANATION = ('C01_roundtrip, closed under the global context: for every shipped version, both modes, every start rule and EVERY text, if the pipeline model '
                '(split_keep ; tokenize_lines ; parse with error recovery, instantiated with the regenerated regexes and automata) returns a tree, then get_code of '
